@@ -1262,9 +1262,13 @@ impl ser::Serializer for TableSerializer {
 
     fn serialize_struct(
         self,
-        _name: &'static str,
+        name: &'static str,
         len: usize,
     ) -> Result<Self::SerializeStruct, crate::ser::Error> {
+        if name == datetime::NAME {
+            // a date-time is not a table (and must not become one holding the private key)
+            return Err(crate::ser::Error::unsupported_type(None));
+        }
         self.serialize_map(Some(len))
     }
 
